@@ -294,6 +294,22 @@ pub fn run_case(case: &Case) -> Outcome {
         }
     }
     o.nontrivial = run.pts.len() >= 3 && (case.kclass == 0 || unequal);
+    // K4: "exactly at the ending time" / "inside the requested interval" to the last bit. check_path has already
+    // established both up to the rounding slack 16 eps max(|t0|, |t_end|); what remains is a deviation of a few ulps
+    // (t + (end - t), or O start-up steps of (end - t)/O, do not land on `end` bit for bit) - judged last, so that
+    // everything else about the path has been decided before.
+    if completed && solver != SolverKind::Euler {
+        if let Some((tl, _)) = run.pts.last() {
+            let over = run.pts.iter().map(|p| p.0).fold(f64::NEG_INFINITY, f64::max);
+            if *tl != cfg.t_end || over > cfg.t_end {
+                let ulps = ((tl - cfg.t_end) / (cfg.t_end.abs().max(f64::MIN_POSITIVE) * EPS)).round();
+                return o.fail_sig(
+                    format!("{}: the last point is at t = {tl:e}, {ulps:+} ulp(s) from the ending time {:e} (largest yielded time {over:e})", solver.name(), cfg.t_end),
+                    "ivp:end-time-off-by-rounding",
+                );
+            }
+        }
+    }
     o.pass()
 }
 
